@@ -119,7 +119,7 @@ static void mutate_cfg(hx_case *c) {
             cf[CF_CB_RC] = rcs[rn(5)];
             break;
         }
-        case 17: cf[CF_TX_HOOKS] ^= 1; break;
+        case 17: cf[CF_TX_HOOKS] = (cf[CF_TX_HOOKS] + 1 + (int32_t) rn(2)) % 3; break;
         case 18: cf[CF_DESTROY_DONE] ^= 1; break;
         case 19: cf[CF_SECOND_CB] ^= 1; break;
         case 20: cf[CF_CFG_COPY] ^= 1; break;
